@@ -101,3 +101,28 @@ Theorem routine_shapes_from_source :
   forallb (fun e => let op := routine_op (fst (fst e)) in
                     srcdim_eqb (snd (fst e)) (trim_dim_right op) && srcdim_eqb (snd e) (trim_dim_bottom op)) gen_mcu_dims = true.
 Proof. repeat split; vm_compute; reflexivity. Qed.
+
+(* the in-block loops of the C text, interpreted statement by statement by the translator, ARE the
+   model's write lists, in the order the model's nested case analysis uses them *)
+Definition wl (ws : list wr) : list (nat * nat * bool) := map (fun w => (w_dst w, w_src w, w_neg w)) ws.
+
+Theorem inblock_writes_from_source :
+  gen_inblock =
+  [("do_flip_h", [wl W_fliph]); ("do_flip_v", [wl W_flipv]); ("do_transpose", [wl W_transpose]);
+   ("do_rot_90", [wl W_rot90; wl W_transpose]); ("do_rot_270", [wl W_rot270; wl W_transpose]);
+   ("do_rot_180", [wl W_rot180; wl W_flipv; wl W_fliph]);
+   ("do_transverse", [wl W_transverse; wl W_rot270; wl W_rot90; wl W_transpose]);
+   ("do_flip_h_no_crop", [wl W_fliph; wl W_fliph])]%string.
+Proof. vm_compute. reflexivity. Qed.
+
+(* tj3Transform can never request the parts of transupp.c outside the model: turbojpeg.c does not
+   mention JCROP_FORCE / JCROP_REFLECT / JCROP_NEG / JXFORM_WIPE / JXFORM_DROP / drop_*, and the only
+   jpeg_transform_info fields it assigns are the ones tj_xopts models *)
+Theorem tj_reachable_from_source :
+  forallb (fun e => Nat.eqb (snd e) 0) gen_tj_unreachable = true /\
+  map fst gen_tj_unreachable = ["JCROP_FORCE"; "JCROP_REFLECT"; "JXFORM_WIPE"; "JXFORM_DROP"; "drop_ptr";
+                                "drop_coef_arrays"; "JCROP_NEG"]%string /\
+  gen_tj_xinfo_fields = ["crop"; "crop_height"; "crop_height_set"; "crop_width"; "crop_width_set"; "crop_xoffset";
+                         "crop_xoffset_set"; "crop_yoffset"; "crop_yoffset_set"; "force_grayscale"; "perfect";
+                         "slow_hflip"; "transform"; "trim"]%string.
+Proof. repeat split; vm_compute; reflexivity. Qed.
